@@ -380,10 +380,24 @@ def run(ctx):
             fh.write("// batch of must-compile auto-trait assertions\n" + PRELUDE + "fn main() {\n"
                      + "".join(f"    assert_{r['trait']}::<{r['type']}>();\n" for r in members) + "}\n")
         batches.append((path, members))
+    # the generated must-compile lifetime probes likewise: 25 programs per file, each in its own module
+    life_pos = [h for h in life if h["expect"][0] == "compile"]
+    for k in range(0, len(life_pos), 25):
+        members = life_pos[k:k + 25]
+        path = os.path.join(bdir, f"life_batch_{k // 25:03d}.rs")
+        parts = []
+        for j, h in enumerate(members):
+            body = open(h["path"]).read().split(c20_lifetimes.PRELUDE, 1)[1]
+            body = body.replace("fn main() {}", "").replace("fn main() {", "fn main_() {")
+            parts.append(f"mod m{j} {{\n    use super::*;\n{body}\n}}\n")
+        with open(path, "w") as fh:
+            fh.write("// batch of must-compile lifetime probes\n" + c20_lifetimes.PRELUDE + "".join(parts) + "fn main() {}\n")
+        batches.append((path, members))
+    batched = {id(m) for _p, members in batches for m in members}
     pool = concurrent.futures.ThreadPoolExecutor(max_workers=min(16, (os.cpu_count() or 4)))
     with pool as ex:
         bf = {ex.submit(compile_probe, p, rlib, deps, work): members for p, members in batches}
-        jobs = [(h["path"], h) for h in hand] + [(r["path"], r) for r in auto if not r["want"]]
+        jobs = [(h["path"], h) for h in hand if id(h) not in batched] + [(r["path"], r) for r in auto if not r["want"]]
         futs = {ex.submit(compile_probe, p, rlib, deps, work): item for p, item in jobs}
         for fut in concurrent.futures.as_completed(bf):
             ok, _codes, _first = fut.result()
